@@ -61,7 +61,8 @@ pub enum Ev {
     CloseUnanswered { link: u8 },
     EndSession { with_error: bool, peer_err: bool },
     PeerEnd { err: bool },
-    /// the peer sends `count` frames for a handle that is not attached (0 flow, 1 transfer, 2 detach), back to back
+    /// the peer sends `count` violating frames back to back: for a handle that is not attached (0 flow, 1 transfer,
+    /// 2 detach), or a duplicate attach (3: the name of an attached link on a new handle, 4: a new name on a handle in use)
     PeerUnattached { kind: u8, count: u8 },
     DropSession,
 }
@@ -86,7 +87,7 @@ fn ev() -> BoxedStrategy<Ev> {
         1 => (0u8..4).prop_map(|link| Ev::CloseUnanswered { link }),
         1 => (any::<bool>(), any::<bool>()).prop_map(|(with_error, peer_err)| Ev::EndSession { with_error, peer_err }),
         1 => any::<bool>().prop_map(|err| Ev::PeerEnd { err }),
-        1 => (0u8..3, 1u8..4).prop_map(|(kind, count)| Ev::PeerUnattached { kind, count }),
+        1 => (0u8..5, 1u8..4).prop_map(|(kind, count)| Ev::PeerUnattached { kind, count }),
         1 => Just(Ev::DropSession),
     ]
     .boxed()
@@ -690,13 +691,18 @@ pub async fn run_async(c: &Case, kf_close_open: bool, excluded: &std::cell::Cell
             }
             Ev::PeerUnattached { kind, count } => {
                 info.peer_initiated = true;
+                // a live link for the duplicate-attach kinds
+                let live_link = links.iter().find(|l| l.h.is_some()).map(|l| (l.name.clone(), l.peer_handle, matches!(l.h, Some(LinkH::S(_)))));
                 for _ in 0..*count {
-                    let body = match kind % 3 {
-                        0 => Peer::flow_body(Some(0), 100_000, 0, 100_000, Some(77), Some(0), Some(1), false, false),
-                        1 => Peer::transfer_body(77, Some(500), Some(b"x"), Some(0), Some(true), false, None, false),
+                    let body = match (kind % 5, &live_link) {
+                        (0, _) => Peer::flow_body(Some(0), 100_000, 0, 100_000, Some(77), Some(0), Some(1), false, false),
+                        (1, _) => Peer::transfer_body(77, Some(500), Some(b"x"), Some(0), Some(true), false, None, false),
+                        (2, _) => Peer::detach_body(77, true, None),
+                        (3, Some((name, _, is_sender))) => Peer::attach_body(name, 78, *is_sender, None, None, if *is_sender { None } else { Some(0) }, None, false),
+                        (4, Some((_, ph, is_sender))) => Peer::attach_body("another-name", *ph, *is_sender, None, None, if *is_sender { None } else { Some(0) }, None, false),
                         _ => Peer::detach_body(77, true, None),
                     };
-                    peer.send_frame(my_ch, &body, &[0x00, 0x53, 0x77, 0x40][..if kind % 3 == 1 { 4 } else { 0 }]).await?;
+                    peer.send_frame(my_ch, &body, &[0x00, 0x53, 0x77, 0x40][..if kind % 5 == 1 { 4 } else { 0 }]).await?;
                 }
                 let fs = peer.new_frames().await;
                 if fs.iter().any(|f| f.name() == "end" && f.channel == ep_ch) {
